@@ -92,6 +92,7 @@ def _c20(prop, tier):
     # (unit ms, Timeout units, Max units, Init2 units, run on the real code)
     grid = [(40, t, m, 50, True) for t in (0, 6, 18) for m in (0, 1, 3)]
     grid += [(0, t, m, 2, False) for t in (3, 8) for m in (1, 2, 4, 16)]          # doubling-and-cap region, model only
+    grid += [(1000, 5, 3, 2, True)]                                               # a cap above the initial 2 s delay: first wait min(4 s, 3 s)
     if tier == "thorough":
         grid += [(1000, 6, 5, 2, True), (1000, 3, 1, 2, True), (40, 30, 2, 50, True), (40, 12, 6, 50, True)]
     states = gen = 0
@@ -394,12 +395,19 @@ def _key_hist(call, evs):
     f = i.get("fault", {})
     b = verifyfam.baseline()
     dev = ",".join("%s=%s" % (d, f[d]) for d in sorted(f) if b.get(d) != f[d]) or "baseline"
+    if i.get("timed"):
+        return "history:wall-clock-time-set-reused-after-expiry|shared=%s" % int(bool(i.get("shared")))
     steps = ">".join("%s@%d%d" % (s["wid"], int(s["gc"]), int(s["cr"])) for s in i.get("hist", []))
     return "history:%s|%s|shared=%s" % (dev, steps, int(bool(i.get("shared"))))
 
 
+def _hist_cases(cases, tier):
+    # one timed history beyond TLC's list: wall-clock time set, the leaf expires between the two calls (shared and fresh Options)
+    return cases + [dict(timed=True, shared=True, fault={}, hist=[]), dict(timed=True, shared=False, fault={}, hist=[])]
+
+
 def _hist_run(prop, tier):
-    return smallfam.run(prop, tier, part=True, mc_module="VerifyHistory_MC", mc_cfg=_hist_cfg(tier), driver="history", trace_module="TdxVerify_Judge", trace_spec="JSpec",
+    return smallfam.run(prop, tier, part=True, case_fn=_hist_cases, mc_module="VerifyHistory_MC", mc_cfg=_hist_cfg(tier), driver="history", trace_module="TdxVerify_Judge", trace_spec="JSpec",
                         trace_consts=HIST_TRACE_CONSTS, key_fn=_key_hist, required_actions=("Call",), max_events=24000,
                         assumptions=["worlds of one history share a seed: named keys and deterministic signatures coincide, so a cache or left-over state keyed on shared material would be hit"],
                         rule="every history (first call on the honest twin or on another honest platform, second call on any of the three worlds, all option levels, shared or fresh Options) is run in one process; every call is judged by the single-call properties")
